@@ -219,5 +219,14 @@ func init() {
 		return nil
 	})
 	reg(vpPath+".Faults", func(fr *frame, args []value) value { return fr.i.fs.faults })
+	reg(vpPath+".FaultedOn", func(fr *frame, args []value) value {
+		op := concStr(fr, args[0], "vp.FaultedOn")
+		for _, l := range fr.i.fs.log {
+			if l == op {
+				return true
+			}
+		}
+		return false
+	})
 	_ = types.Typ
 }
